@@ -400,12 +400,6 @@ def _token_states(ctx, run):
                 if is_none and v == GRANT and f.name == "vbi_proxyd_token_grant":
                     grant_sites += 1
                     run.holds("RF-STATE", key, "the grant site (NONE -> GRANT), checked separately", ex.loc(f, i), nontrivial=False)
-                elif not (nonnone or owner_obj) and v not in (GRANT, P.enum_consts.get("REQ_TOKEN_GRANTED")):
-                    # RETURNED / RECLAIM / RELEASE written without a test of the prior state: the scheduler run that follows
-                    # in the same handler demotes a client that was not the owner (replayed: findings/C19 mode 4 - no second
-                    # controlling client survives the handler); recorded, not claimed
-                    run.note("%s: `%s` without a dominating test of the prior state (compensated by the scheduler call that follows; "
-                             "not claimed)" % (f.name, ex.pretty(f, i)[:60]))
                 elif nonnone or owner_obj:
                     run.holds("RF-STATE", key, "`%s`: the object already is the (unique) non-NONE client on this path" % ex.pretty(f, i)[:60],
                               ex.loc(f, i))
